@@ -28,7 +28,7 @@ RULE = (
     "non-exception classes with recording __new__/__init__ / a metaclass-callable class / exception instances / "
     "modules / builtins eval, print, type, object - reached by dotted paths of length 1-4 through module and class "
     "attributes - as well as exception classes (incl. nested and aliased ones, one whose constructor always fails), "
-    "unresolvable names, exc_module=None, modules that are not loaded (including a planted importable-but-unloaded "
+    "unresolvable names, exc_module=None, nodes given as the wrapper object of pickle-encoded results instead of the dict form, modules that are not loaded (including a planted importable-but-unloaded "
     "module whose import leaves a marker); args of any JSON shape. Oracle: the outcome is a BaseException instance, or "
     "SecurityError, or pydantic ValidationError/ValueError - nothing else; no trap was called or instantiated; "
     "set(sys.modules) is unchanged and the marker absent; an unresolvable name yields a synthetic Exception subclass "
@@ -119,11 +119,14 @@ JSONV = st.recursive(st.one_of(st.none(), st.booleans(), st.integers(-10**6, 10*
 
 def payloads() -> Any:
     target = st.one_of(st.sampled_from(TRAP_TARGETS), st.sampled_from(TRAP_TARGETS), st.sampled_from(EXC_TARGETS), st.sampled_from(UNRESOLVED))
-    leaf = st.fixed_dictionaries({"t": target.map(list), "args": st.lists(JSONV, max_size=3), "suppress": st.booleans()})
+    # "wrapper": the node is the wrapper object taskiq stores for pickle-encoded results (module, class name, args,
+    # text) instead of the dict form - it reaches the same loader through exception_to_python / TaskiqResult validation
+    wrap = st.sampled_from([False, False, False, True])
+    leaf = st.fixed_dictionaries({"t": target.map(list), "args": st.lists(JSONV, max_size=3), "suppress": st.booleans(), "wrapper": wrap})
 
     def extend(ch: Any) -> Any:
         return st.fixed_dictionaries({"t": target.map(list), "args": st.lists(JSONV, max_size=2), "suppress": st.booleans(),
-                                      "cause": st.one_of(st.none(), ch), "context": st.one_of(st.none(), ch)})
+                                      "cause": st.one_of(st.none(), ch), "context": st.one_of(st.none(), ch), "wrapper": st.just(False)})
 
     return st.fixed_dictionaries({"tree": st.recursive(leaf, extend, max_leaves=5),
                                   "entry": st.sampled_from(["function", "result", "result_json"])})
@@ -160,7 +163,19 @@ def node_payload(module: Optional[str], name: str, args: List[Any], suppress: bo
             "exc_suppress_context": suppress}
 
 
-def build_tree(t: Dict[str, Any]) -> Dict[str, Any]:
+def _wrapper_cls() -> Any:
+    import taskiq.serialization as ser
+
+    return getattr(ser, "_UnpickleableExceptionWrapper", None)
+
+
+def is_wrapper(t: Dict[str, Any]) -> bool:
+    return bool(t.get("wrapper")) and isinstance(t["t"][0], str) and _wrapper_cls() is not None
+
+
+def build_tree(t: Dict[str, Any]) -> Any:
+    if is_wrapper(t):
+        return _wrapper_cls()(t["t"][0], t["t"][1], tuple(t["args"]), "stored text")
     p = node_payload(t["t"][0], t["t"][1], t["args"], t.get("suppress", False))
     if t.get("cause"):
         p["exc_cause"] = build_tree(t["cause"])
@@ -171,6 +186,8 @@ def build_tree(t: Dict[str, Any]) -> Dict[str, Any]:
 
 def expect_tree(t: Dict[str, Any]) -> str:
     """'security' if any node that is actually visited resolves to a non-exception; else 'exception'."""
+    if is_wrapper(t):
+        return "exception"      # the wrapper is restored as a synthetic exception class of that name - nothing is looked up
     kind, obj = resolve(t["t"][0], t["t"][1])
     if kind == "object" and not (isinstance(obj, type) and issubclass(obj, BaseException)):
         return "security"
@@ -184,6 +201,12 @@ def check_loaded(t: Dict[str, Any], loaded: Any, out: Outcome, path: str) -> Non
     kind, obj = resolve(t["t"][0], t["t"][1])
     if not isinstance(loaded, BaseException):
         out.add("C20.a", f"{path}: loaded {type(loaded).__name__}, not an exception")
+        return
+    if is_wrapper(t):
+        tt = type(loaded)
+        if not (issubclass(tt, Exception) and tt.__name__ == t["t"][1] and tt.__mro__[1] is Exception and tt.__module__ == t["t"][0]):
+            out.add("C20.d", f"{path}: pickle-style wrapper for {t['t']} restored as {tt.__module__}.{tt.__name__} (bases {[b.__name__ for b in tt.__mro__[1:3]]}), "
+                             f"expected a synthetic Exception subclass of that name")
         return
     if kind in ("unresolved", "nomodule"):
         want_mod = "taskiq.serialization" if kind == "nomodule" else "taskiq.exceptions"
@@ -203,7 +226,13 @@ def check_loaded(t: Dict[str, Any], loaded: Any, out: Outcome, path: str) -> Non
                 check_loaded(t[k], sub, out, path + "/" + k)
 
 
-def load(payload: Dict[str, Any], entry: str) -> Any:
+def _has_wrapper(t: Dict[str, Any]) -> bool:
+    return is_wrapper(t) or any(t.get(k) and _has_wrapper(t[k]) for k in ("cause", "context"))
+
+
+def load(payload: Any, entry: str) -> Any:
+    if entry == "result_json" and not isinstance(payload, dict):
+        entry = "result"
     if entry == "function":
         return exception_to_python(payload)
     if entry == "result":
@@ -219,6 +248,8 @@ def run_tree(tree: Dict[str, Any], entry: str, out: Outcome) -> str:
     traps.reset()
     before = set(sys.modules)
     payload = build_tree(tree)
+    if entry == "result_json" and _has_wrapper(tree):
+        entry = "result"      # wrapper objects only exist in pickle-encoded results, not in JSON text
     exp = expect_tree(tree)
     outcome = "?"
     try:
